@@ -21,6 +21,8 @@ RULE = "oracle: brute-force datetime.date arithmetic (list every date of the uni
 ASSUMPTIONS = ["zone cases: when a midnight on the way (the value's own day or the target day) is skipped or repeated the result must still be the brute-force date at its "
                "first instant (the former known finding K-C12-1 was repaired in a574970; its predicate now reports a violation)",
                "target days that do not exist at all in the zone (Pacific/Apia 2011-12-30) are outside the asserted domain"]
+# zones whose clocks jump from 23:00 / 23:30 straight to 00:00: the day's LAST hour is skipped, its midnight is ordinary
+LATE_EVENING_GAPS = ["America/Nuuk", "America/Scoresbysund", "Asia/Pyongyang", "Asia/Dhaka"]
 MIDNIGHT_DST = ["America/Sao_Paulo", "America/Havana", "Asia/Beirut", "America/Asuncion", "America/Santiago", "Asia/Amman", "Asia/Damascus", "Africa/Cairo",
                 "Asia/Tehran", "America/Campo_Grande", "Atlantic/Azores", "Asia/Gaza", "America/Bahia", "Pacific/Apia", "Pacific/Kiritimati", "Europe/Paris", "UTC"]
 
@@ -154,9 +156,19 @@ def fragile_midnights(zone, dates):
 
 @st.composite
 def zone_case(draw):
-    z = draw(st.sampled_from(MIDNIGHT_DST))
+    z = draw(st.sampled_from(MIDNIGHT_DST + LATE_EVENING_GAPS))
     tr = [t for t in T.transitions(z)]
-    if tr and draw(st.integers(0, 3)) > 0:
+    mode = draw(st.integers(0, 4))
+    gaps = [x for x in tr if x[2] > x[1]]
+    if gaps and mode == 4:
+        # a value some days away from a gap whose TIME OF DAY lies inside the skipped interval (23:xx before a clock that jumps to 00:00, 00:xx after a
+        # skipped midnight): navigation that keeps the time of day while it changes the date lands on a wall time that does not exist
+        t, a, b = gaps[draw(st.integers(0, len(gaps) - 1))]
+        inside = t * US + a * US + draw(S.uni(0, (b - a) * US - 1))          # a skipped wall value, in naive microseconds
+        w = inside + draw(st.integers(-8, 8)) * DAY
+        off = T.offset_at(S.clamp_u(w), z)
+        u = S.clamp_u(w - off * US)
+    elif tr and mode > 0:
         t, a, b = tr[draw(st.integers(0, len(tr) - 1))]
         u = S.clamp_u(t * US + draw(S.uni(-40 * DAY, 40 * DAY)))
     else:
